@@ -117,3 +117,23 @@ func (s *Scheduler) VerifRunSync(cfg *JobConfiguration, jobType string, fault Ve
 	s.Runner.raffle.runningMu.Unlock()
 	return out, nil
 }
+
+// VerifSink is the sink of a job configuration, driven call by call (what a fullsync pipeline does
+// to its sink: startFullSync, processEntities*, endFullSync).
+type VerifSink struct {
+	s     Sink
+	sched *Scheduler
+}
+
+func (s *Scheduler) VerifSinkFor(cfg *JobConfiguration) (*VerifSink, error) {
+	sink, err := s.parseSink(cfg)
+	if err != nil {
+		return nil, err
+	}
+	return &VerifSink{s: sink, sched: s}, nil
+}
+func (v *VerifSink) Start() error { return v.s.startFullSync(v.sched.Runner) }
+func (v *VerifSink) Process(entities []*server.Entity) error {
+	return v.s.processEntities(v.sched.Runner, entities)
+}
+func (v *VerifSink) End() error { return v.s.endFullSync(context.Background(), v.sched.Runner) }
